@@ -302,8 +302,8 @@ def nodeForms (h : Head) (ns : List Node) : List Form :=
   (snapshotOrder ns).map fun n => ⟨h, n.name, n.inherits.map fun i => (h, i)⟩
 
 /-- **Inside a section** written by (number of inherited definitions, name) there is no forward need,
-    for every world — the hypothesis `hin` of `snapshot_load_sound` for the flavor, class and
-    package sections. -/
+    for every world — the hypothesis `hin` of `snapshot_load_sound` for the flavor and package
+    sections (and for the class section, should defclass ever need its superclasses). -/
 theorem nodeForms_noFwd (h : Head) (ns : List Node) (w : World ns) : NoFwd (nodeForms h ns) := by
   unfold NoFwd nodeForms
   rw [List.pairwise_map]
